@@ -38,6 +38,53 @@ def delta_of(e, field):
     return None
 
 
+def quotient_counter_rules(prog, rep, rid):
+    """quotient filter: +1 per slot filled, -1 per slot emptied, unchanged when absent, reset with the arrays (shared with C04)"""
+    # ---------------------------------------------------------------- quotient filter
+    ctx = "QuotientFilter"
+    E = "_elements_added"
+    fa = prog.method(ctx, "_add")
+    okq = True
+    for p in paths(prog, ctx, fa):
+        if p.exit[0] != "return":
+            if counter_events(p, E):
+                okq = False
+            continue
+        d = [delta_of(e, E) for e in counter_events(p, E)]
+        if d != [C(1)]:
+            rep.bad(rid, f"{ctx}._add", f"counter deltas {[nshow(x) if x else '?' for x in d]}", "a successful _add does not count exactly one element", fa.where())
+            okq = False
+            break
+    if okq:
+        rep.ok(rid, f"{ctx}._add: +1 on every non-raising path")
+    fr = prog.method(ctx, "_remove_element")
+    okq = True
+    npaths = 0
+    for p in paths(prog, ctx, fr, max_states=20000):
+        if p.exit[0] != "return":
+            continue
+        npaths += 1
+        mut = [e for e in p.events if e.kind == "setelem" or (e.kind == "call" and e.name in ("clear_bit", "set_bit", "__setitem__"))]
+        d = [delta_of(e, E) for e in counter_events(p, E)]
+        want = [("un", "-", C(1))] if mut else []
+        if d != want:
+            loc = fr.where(p.exit[2]) if p.exit[2] is not None else fr.where()
+            rep.bad(rid, f"{ctx}._remove_element", f"table mutated={bool(mut)}, counter deltas {[nshow(x) if x else '?' for x in d]}",
+                    f"a path of _remove_element {'empties a slot' if mut else 'changes nothing'} but elements_added moves by {[nshow(x) if x else '?' for x in d] or 'nothing'}: "
+                    "after a removal elements_added is no longer the number of stored hashes (and the load factor is wrong)", loc)
+            okq = False
+            break
+    rep.analysed(fr, ctx, npaths)
+    if okq:
+        rep.ok(rid, f"{ctx}._remove_element: -1 on every mutating path ({npaths} paths), 0 when absent")
+    sp = prog.method(ctx, "__set_params")
+    oks = all(any(e.value == C(0) for e in counter_events(p, E)) and p.fields.get((SELF, "_filter")) is not None for p in paths(prog, ctx, sp) if p.exit[0] == "return")
+    if oks:
+        rep.ok(rid, f"{ctx}.__set_params: counter reset together with the arrays")
+    else:
+        rep.bad(rid, f"{ctx}.__set_params", "no reset", "the arrays are replaced without resetting elements_added", sp.where())
+
+
 def check(prog, rep, tier):
     rep.extra["explanation"] = EXPL
     rep.rule("C14.bloom", "Bloom / on-disk add: +1 once, outside the hash loop; expanding / rotating: +1 on every path", floor=3)
@@ -259,49 +306,7 @@ def check(prog, rep, tier):
             break
     if oka and seen:
         rep.ok("C14.cuckoo-insert", "CountingCuckooFilter.add: bin.increment() <-> elements_added += 1")
-    # ---------------------------------------------------------------- quotient filter
-    ctx = "QuotientFilter"
-    E = "_elements_added"
-    fa = prog.method(ctx, "_add")
-    okq = True
-    for p in paths(prog, ctx, fa):
-        if p.exit[0] != "return":
-            if counter_events(p, E):
-                okq = False
-            continue
-        d = [delta_of(e, E) for e in counter_events(p, E)]
-        if d != [C(1)]:
-            rep.bad("C14.quotient", f"{ctx}._add", f"counter deltas {[nshow(x) if x else '?' for x in d]}", "a successful _add does not count exactly one element", fa.where())
-            okq = False
-            break
-    if okq:
-        rep.ok("C14.quotient", f"{ctx}._add: +1 on every non-raising path")
-    fr = prog.method(ctx, "_remove_element")
-    okq = True
-    npaths = 0
-    for p in paths(prog, ctx, fr, max_states=20000):
-        if p.exit[0] != "return":
-            continue
-        npaths += 1
-        mut = [e for e in p.events if e.kind == "setelem" or (e.kind == "call" and e.name in ("clear_bit", "set_bit", "__setitem__"))]
-        d = [delta_of(e, E) for e in counter_events(p, E)]
-        want = [("un", "-", C(1))] if mut else []
-        if d != want:
-            loc = fr.where(p.exit[2]) if p.exit[2] is not None else fr.where()
-            rep.bad("C14.quotient", f"{ctx}._remove_element", f"table mutated={bool(mut)}, counter deltas {[nshow(x) if x else '?' for x in d]}",
-                    f"a path of _remove_element {'empties a slot' if mut else 'changes nothing'} but elements_added moves by {[nshow(x) if x else '?' for x in d] or 'nothing'}: "
-                    "after a removal elements_added is no longer the number of stored hashes (and the load factor is wrong)", loc)
-            okq = False
-            break
-    rep.analysed(fr, ctx, npaths)
-    if okq:
-        rep.ok("C14.quotient", f"{ctx}._remove_element: -1 on every mutating path ({npaths} paths), 0 when absent")
-    sp = prog.method(ctx, "__set_params")
-    oks = all(any(e.value == C(0) for e in counter_events(p, E)) and p.fields.get((SELF, "_filter")) is not None for p in paths(prog, ctx, sp) if p.exit[0] == "return")
-    if oks:
-        rep.ok("C14.quotient", f"{ctx}.__set_params: counter reset together with the arrays")
-    else:
-        rep.bad("C14.quotient", f"{ctx}.__set_params", "no reset", "the arrays are replaced without resetting elements_added", sp.where())
+    quotient_counter_rules(prog, rep, "C14.quotient")
     # ---------------------------------------------------------------- load factors
     lf = {"CuckooFilter": ("load_factor", ("bin", "/", ("f", SELF, "_inserted_elements", 0), ("bin", "*", ("f", SELF, "_cuckoo_capacity", 0), ("f", SELF, "_bucket_size", 0)))),
           "CountingCuckooFilter": ("load_factor", ("bin", "/", ("f", SELF, "_CountingCuckooFilter__unique_elements", 0), ("bin", "*", ("f", SELF, "_cuckoo_capacity", 0), ("f", SELF, "_bucket_size", 0)))),
